@@ -52,19 +52,33 @@ impl Path {
     /// so that the error is not greater than `tolerance`.
     pub fn flatten(&self, tolerance: f32) -> Path {
         let mut cur_pt = None;
+        let mut first_pt = None;
         let mut flattened = Path { ops: Vec::new(), winding: Winding::NonZero };
         for op in &self.ops {
             match *op {
-                PathOp::MoveTo(pt) | PathOp::LineTo(pt) => {
+                PathOp::MoveTo(pt) => {
+                    cur_pt = Some(pt);
+                    first_pt = Some(pt);
+                    flattened.ops.push(op.clone())
+                }
+                PathOp::LineTo(pt) => {
+                    // a LineTo without a current point starts a subpath
+                    if cur_pt.is_none() {
+                        first_pt = Some(pt);
+                    }
                     cur_pt = Some(pt);
                     flattened.ops.push(op.clone())
                 }
                 PathOp::Close => {
-                    cur_pt = None;
+                    // closing returns to the start of the subpath just like it does when filling
+                    cur_pt = first_pt;
                     flattened.ops.push(op.clone())
                 }
                 PathOp::QuadTo(cpt, pt) => {
                     let start = cur_pt.unwrap_or(cpt);
+                    if cur_pt.is_none() {
+                        first_pt = Some(cpt);
+                    }
                     let c = QuadraticBezierSegment {
                         from: start,
                         ctrl: cpt,
@@ -77,6 +91,9 @@ impl Path {
                 }
                 PathOp::CubicTo(cpt1, cpt2, pt) => {
                     let start = cur_pt.unwrap_or(cpt1);
+                    if cur_pt.is_none() {
+                        first_pt = Some(cpt1);
+                    }
                     let c = CubicBezierSegment {
                         from: start,
                         ctrl1: cpt1,
